@@ -62,6 +62,9 @@ class World:
             warnings.simplefilter("ignore")
             self.m = mk(self.P, self.np)
         self.vars, self.bcs = {}, {}
+        # how CellVariables are constructed in this world: from interior values (float), or from a ghost-inclusive
+        # array whose ghost layer is consistent with the BCs (float; integer-typed where every entry is integral)
+        self.style = ("interior", "ghost", "ghost_int")[(grid_index // len(GRIDS)) % 3]
         self.counter = 0
         self.mesh_snap = self.snap_mesh()
         self.D = self.P.FaceVariable(self.m, 1.5)
@@ -77,6 +80,20 @@ class World:
         np = self.np
         base = self.fresh()
         return base + np.arange(int(np.prod(self.m.dims)), dtype=float).reshape(tuple(self.m.dims)) * 0.25
+
+    def ctor_values(self, bc=None):
+        """the cell_value argument of a constructor call, in the style of this world"""
+        np = self.np
+        inner = self.new_values()
+        if self.style == "interior":
+            return inner
+        from pyfvtool.boundary import cellValuesWithBoundaries
+        if self.style == "ghost_int":
+            inner = np.floor(inner)
+        full = np.asarray(cellValuesWithBoundaries(inner, bc if bc is not None else self.P.BoundaryConditions(self.m)))
+        if self.style == "ghost_int" and np.all(np.isfinite(full)) and np.all(full == np.round(full)):
+            return full.astype(np.int64)
+        return full
 
     # ---- snapshots --------------------------------------------------------------------
     def snap_mesh(self):
@@ -265,10 +282,10 @@ def step(W, name, args, rec, judge, ctx, wit, before_vars):
         W.bcs[args[0]] = P.BoundaryConditions(W.m)
     elif name == "NewVar":
         v, b, pc = args
-        W.vars[v] = P.CellVariable(W.m, W.new_values(), W.bcs[b], BCsTerm_precalc=pc)
+        W.vars[v] = P.CellVariable(W.m, W.ctor_values(W.bcs[b]), W.bcs[b], BCsTerm_precalc=pc)
     elif name == "NewVarDefault":
         v, b = args
-        W.vars[v] = P.CellVariable(W.m, W.new_values())
+        W.vars[v] = P.CellVariable(W.m, W.ctor_values())
         W.bcs[b] = W.vars[v].BCs
     elif name == "EditBC":
         b, s, how = args
@@ -293,9 +310,19 @@ def step(W, name, args, rec, judge, ctx, wit, before_vars):
     elif name == "AssignValue":
         v, how = args
         if how == "whole":
-            W.vars[v].value = W.new_values()
+            assigned = W.new_values()
+            W.vars[v].value = assigned
+            if not np.array_equal(np.asarray(W.vars[v].value, dtype=float), assigned):
+                # "the same interior values": what is read back is what was assigned
+                judge.bad("C09_AssignKept", dict(ctx, how=how, style=W.style,
+                                                 dtype=str(np.asarray(W.vars[v]._value).dtype)), wit)
         else:
-            W.vars[v].value[tuple(slice(0, 1) for _ in W.m.dims)] = 100.0 + W.fresh()
+            val = 100.0 + W.fresh() + 0.5
+            sl = tuple(slice(0, 1) for _ in W.m.dims)
+            W.vars[v].value[sl] = val
+            if not np.all(np.asarray(W.vars[v].value, dtype=float)[sl] == val):
+                judge.bad("C09_AssignKept", dict(ctx, how=how, style=W.style,
+                                                 dtype=str(np.asarray(W.vars[v]._value).dtype)), wit)
     elif name == "UpdateValue":
         v, w = args
         W.vars[v].update_value(W.vars[w])
